@@ -118,34 +118,33 @@ Section Bridge.
   (* ---------------------------------------------------------------- Enum._validate, enum-class form *)
   Lemma generated_enum_cls_validate : forall cls allm members v,
       Enum__validate re_match (enum_cls_self cls allm members) v =
-      if negb (py_hashable v) then Raise TypeError
-      else match v with
-           | PStr n => if alist_has members n then Ok tt else Raise ValueError
-           | PEnum c n _ => if pystr_eqb c cls && alist_has members n then Ok tt else Raise ValueError
-           | _ => Raise ValueError
-           end.
+      match v with
+      | PStr n => if alist_has members n then Ok tt else Raise ValueError
+      | PEnum c n _ => if pystr_eqb c cls && alist_has members n then Ok tt else Raise ValueError
+      | _ => Raise ValueError
+      end.
   Proof.
     intros cls allm members v. unfold Enum__validate.
     change (enum_cls_self cls allm members (s2p "_is_enum")) with (PBool true).
     change (enum_cls_self cls allm members (s2p "_valid_enum_values")) with (PList (members_vals cls members)).
     cbn [py_truthy bind]. unfold py_names_set, py_names_list.
-    rewrite names_of_members. cbn [bind py_in_dyn]. rewrite hashable_same.
+    rewrite names_of_members. cbn [bind py_in_dyn].
     assert (Htail : forall A (k : res A),
                (c <- (t5 <- py_len (PList (map (fun m => PStr (fst m)) members)) ;; py_lt t5 (zint 11)) ;;
                 if c then @Raise unit ValueError else Raise ValueError) = Raise ValueError).
     { intros A k. cbn [py_len bind py_lt as_num zint].
       destruct (num_ltb _ _); reflexivity. }
-    destruct (py_hashable v) eqn:Hh; cbn [negb bind py_not py_and].
-    2:{ reflexivity. }
+    (* only a str is hashed (a str is hashable); every other value skips the set of names *)
     destruct v as [ | b | n | s | l | l | l | f l | kv | c n x | c a | t r ];
-      try (rewrite not_in_names by reflexivity; cbn [negb bind];
+      try (change (py_isinstance _ [K_str]) with false; cbn [py_and py_not negb bind];
            rewrite not_in_members by reflexivity; cbn [negb bind];
            exact (Htail unit (Ok tt))).
     - (* PStr *)
+      change (py_isinstance (PStr s) [K_str]) with true. cbn [py_and py_not bind py_hashable'].
       rewrite in_names_str. destruct (alist_has members s); cbn [negb bind]; [reflexivity|].
       rewrite not_in_members by reflexivity. cbn [negb bind]. exact (Htail unit (Ok tt)).
     - (* PEnum *)
-      rewrite not_in_names by reflexivity. cbn [negb bind].
+      change (py_isinstance (PEnum c n x) [K_str]) with false. cbn [py_and py_not negb bind].
       rewrite in_members_enum.
       destruct (pystr_eqb c cls && alist_has members n); cbn [negb bind]; [reflexivity|].
       exact (Htail unit (Ok tt)).
@@ -161,12 +160,11 @@ Section Bridge.
     change (enum_cls_self cls allm members (s2p "_is_enum")) with (PBool true).
     change (enum_cls_self cls allm members (s2p "_enum_class")) with (PList (members_vals cls allm)).
     cbn [vset py_truthy bind].
-    destruct (py_hashable v) eqn:Hh; cbn [negb bind]; [|reflexivity].
     destruct v as [ | b | n | s | l | l | l | f l | kv | c n x | c a | t r ];
       try reflexivity.
-    - (* PStr *)
+    - (* PStr: a str that is not an enum member is looked up by name *)
       unfold alist_has. destruct (alist_get members s) as [x|] eqn:Hg; cbn [bind]; [|reflexivity].
-      cbn [py_isinstance existsb isinstance1 orb py_enum_getitem].
+      cbn [py_isinstance existsb isinstance1 orb py_enum_getitem py_is_enum_member py_and py_not negb bind].
       rewrite lookup_member, (Hsub s x Hg). reflexivity.
     - (* PEnum *)
       destruct (pystr_eqb c cls && alist_has members n); reflexivity.
